@@ -21,9 +21,14 @@ RULE = ("cases = (pattern, token list, varid) triples: patterns sampled from all
         "extended); non-trivial = pattern has >= 2 words or an alternative/class/negation and the list is non-empty")
 EXPLANATION = ("Lean theorems: for every pattern string, token list and varid the compiled program equals the documented "
                "language (compiled_eq_language). Tie: generated C++ of every source pattern re-parsed and compared with the model "
-               "compiler (exhaustive); interpreter modelled byte-for-byte and validated by correspondence.")
-THEOREMS = ["Cppcheck.Match.compiled_eq_language", "Cppcheck.Match.compiled_eq_language_novarid", "Cppcheck.Match.find_first"]
-MODULES = ["Cppcheck.Props.C33"]
+               "compiler (exhaustive); interpreter modelled byte-for-byte, validated by correspondence and proved equal to the language on "
+               "well-formed patterns (interp_eq_language, hypotheses: no NUL in the pattern, no blank/NUL in token texts), hence "
+               "compiled_eq_interpreted for every well-formed pattern - and every source pattern is checked to be well-formed.")
+THEOREMS = ["Cppcheck.Match.compiled_eq_language", "Cppcheck.Match.compiled_eq_language_novarid", "Cppcheck.Match.find_first",
+            "Cppcheck.Match.interp_eq_language", "Cppcheck.Match.compiled_eq_interpreted",
+            "Cppcheck.Match.compiled_eq_interpreted_novarid", "Cppcheck.Match.simple_interp_eq_words",
+            "Cppcheck.Match.simple_language_eq_words", "Cppcheck.Match.simple_compiled_eq_interpreted"]
+MODULES = ["Cppcheck.Props.C33", "Cppcheck.Props.C33Interp"]
 
 CMD_COND = {
     'true': 'cmd:any', 'tok->isAssignmentOp()': 'cmd:assign', 'tok->isBoolean()': 'cmd:bool',
